@@ -12,9 +12,18 @@
 // validator's typ, iss, aud, exp, nbf, iat and clock-skew rules hold"), from
 // RFC 7515/7519 for what a compact JWS and a claims set are, and from the
 // documented meaning of a clock skew (a tolerance that can only make more
-// tokens acceptable). It parses nothing, touches no tink package, reads no
-// clock and never answers "unsure": the generator is restricted to tokens the
-// fields below describe completely.
+// tokens acceptable). It parses nothing, touches no tink package and reads no
+// clock. The generator is restricted to tokens the fields below describe
+// completely; the answer is accept or reject, except for the two situations
+// the property statement does not settle, where it is "either":
+//   - a segment of the transmitted string is a re-encoding (padding, white
+//     space, standard instead of URL alphabet) of base64url text whose bytes
+//     are intact — the statement speaks of a valid signature, not of how
+//     strictly base64url has to be parsed; such a token may be refused, but
+//     if it is accepted every other rule must hold;
+//   - the validator expects "issued in the past" and the token has no iat —
+//     neither the statement nor tink's API documentation says whether an
+//     absent iat fails that expectation.
 package jwtref
 
 import (
@@ -73,6 +82,13 @@ type Token struct {
 	// non-empty, the first two decode to JSON objects (the header and the
 	// claims set described below).
 	Compact bool
+	// Reencoded (only with Compact == false): the string differs from the
+	// compact token described here only by characters outside the base64url
+	// alphabet that a lenient base64 parser drops or maps (padding, CR/LF,
+	// blanks, '+' '/' for '-' '_'), and the signature was computed over the
+	// transmitted "header.payload" text. Rejection is allowed; acceptance is
+	// allowed iff every other rule holds.
+	Reencoded bool
 	// SignedBy names the key material whose signature/MAC, computed with
 	// algorithm SignedAlg over exactly the transmitted ASCII "header.payload",
 	// the third segment decodes to. Empty when no such material exists (the
@@ -95,17 +111,12 @@ type Opts struct {
 	ClockSkew                             time.Duration
 }
 
-// MaxClockSkew is the documented maximum; larger values must be refused when
-// the validator is constructed.
+// MaxClockSkew is the largest skew the generator uses (tink's current limit;
+// the limit itself appears in no API documentation and is not asserted).
 const MaxClockSkew = 10 * time.Minute
 
 // MaxTimestamp is the largest NumericDate a token may carry (9999-12-31T23:59:59Z).
 const MaxTimestamp = 253402300799
-
-// OptsLegal says whether a validator with these options may exist at all.
-func OptsLegal(o Opts) bool {
-	return o.ClockSkew <= MaxClockSkew
-}
 
 // Reason names the first rule (in the model's own order) that fails; it is for
 // traces and signatures only — the property does not say which error wins.
@@ -114,6 +125,10 @@ type Reason string
 // Decision is the model's answer.
 type Decision struct {
 	Accept bool
+	// Either: the statement does not settle this case; both outcomes are
+	// allowed (Accept is false, Reason names what is unsettled). When the
+	// library accepts, the returned claims must still be the signed payload.
+	Either bool
 	Reason Reason // "" on accept
 	// Time rules: for each time claim that is present and constrained by the
 	// options, on which side of its boundary `now` lies and how far.
@@ -138,7 +153,7 @@ func Decide(tok Token, keys []Key, o Opts, now time.Time) Decision {
 		d.Accept = false
 		return d
 	}
-	if !tok.Compact {
+	if !tok.Compact && !tok.Reencoded {
 		return reject("not-compact-jws")
 	}
 	// (1) some enabled key under which the signature is valid, whose algorithm
@@ -246,6 +261,7 @@ func Decide(tok Token, keys []Key, o Opts, now time.Time) Decision {
 			note("not-yet-valid")
 		}
 	}
+	var unsettled Reason
 	if o.ExpectIssuedInThePast {
 		if iat, ok := tok.Claims["iat"]; ok {
 			s := int64(iat.(float64))
@@ -254,11 +270,18 @@ func Decide(tok Token, keys []Key, o Opts, now time.Time) Decision {
 				note("issued-in-the-future")
 			}
 		} else {
-			note("iat-missing")
+			unsettled = "iat-missing(unsettled)"
 		}
 	}
 	if why != "" {
 		return reject(why)
+	}
+	if !tok.Compact { // Reencoded
+		unsettled = "reencoded-base64(unsettled)"
+	}
+	if unsettled != "" {
+		d.Either, d.Reason = true, unsettled
+		return d
 	}
 	d.Accept = true
 	return d
@@ -355,23 +378,4 @@ func dist(sec, ns int64) int64 {
 		return math.MaxInt64
 	}
 	return d
-}
-
-// TransportJWK gives the keyset a verifier holds after the public keyset went
-// through a JWK set (RFC 7517): disabled keys are not exported; a key whose
-// kid derives from its key ID and a key with a custom kid both carry a "kid"
-// member, which on import is a custom kid; a key without kid carries none.
-func TransportJWK(keys []Key) []Key {
-	var out []Key
-	for _, k := range keys {
-		if !k.Enabled {
-			continue
-		}
-		n := k
-		if k.Rule == KIDFromKeyID {
-			n.Rule = KIDCustom
-		}
-		out = append(out, n)
-	}
-	return out
 }
